@@ -404,7 +404,8 @@ impl AsyncRead for SimReader {
                 match this.style {
                     1 => {
                         // zero-initialise everything that is offered, then fill a prefix of it
-                        let dst = buf.initialize_unfilled();
+                        // (bounded: a decoder may offer a 256 MiB buffer for a hostile length)
+                        let dst = buf.initialize_unfilled_to(cap.min(n + 4096));
                         dst[..n].copy_from_slice(&this.data[pos..pos + n]);
                         buf.advance(n);
                     }
